@@ -519,6 +519,8 @@ def run_C11(run):
     base = consts(BASE_EXPR, UseCat=True, ElemNames={"a", "a-1"}, AttrNames={"a"}, TextVals={"1", "-1"}, WithComment=True)
     run.gen_and_replay("MC_Expr", consts(base, Family="C11pairs", MaxNodes=4 if q else 5), name="union-pairs", kind="sel-once")
     run.gen_and_replay("MC_Expr", consts(base, Family="C11more", MaxNodes=4 if q else 5), name="union-nested-seq", kind="sel-once")
+    # unions inside predicates (evaluated again for every candidate): set semantics
+    run.gen_and_replay("MC_Expr", consts(base, Family="C11pred", MaxNodes=4 if q else 5), name="union-in-predicates", kind="sel-set")
     tr = run.drive("unions", 2500 if q else 40000, extra=["-nodes", "16"])
     run.validate_batch(tr, "unions-flowB")
     base2 = consts(base, ElemNames={"b1", "b", "a-1-1"}, TextVals={"1-1", ""}, WithComment=False)
